@@ -175,7 +175,10 @@ pub fn main(args: &[String]) {
         let mut evn = 0u64;
         let fixed = alg == "fixed";
         for min in 0..=4usize {
-            for max in 2..=6usize {
+            for max in 2..=7usize {
+                if max == 7 && w < 4 {
+                    continue;
+                }
                 if fixed && min != 0 {
                     continue;
                 }
